@@ -140,6 +140,13 @@ class BaseIntervalScorer(BaseEstimator):
         cuts = as_2d_array(cuts, vector_as_column=False)
         cuts = self._check_cuts(cuts)
 
+        n_samples = self._X.shape[0]
+        if cuts.size > 0 and (cuts.min() < 0 or cuts.max() > n_samples):
+            raise ValueError(
+                f"All entries in `cuts` must be between 0 and {n_samples} (the number"
+                f" of samples). Got min={cuts.min()} and max={cuts.max()}."
+            )
+
         values = self._evaluate(cuts)
         return values
 
